@@ -30,6 +30,7 @@ TOKEN_READERS = ["selection::read_function_name", "extractor::ExtractFromInput::
 
 
 def run(ctx, rep):
+    dot_sugar(rep, ctx.lib)
     from rules import c11 as _c11
     _c11.get_pure(rep, ctx.lib)
     # bindings made by --set are in scope for every option: the --set stage is outermost (shared with C03)
@@ -228,3 +229,87 @@ def _unq(s):
         except Exception:
             return s[1:-1]
     return s
+
+
+def dot_sugar(rep, lib):
+    """`(.f x)` means `(f . x)`: decided for both answers of the leading-dot test."""
+    from lib.peval import PE
+    from lib.prov import Prov
+    r = rep.rule("C13-DOT-SUGAR", "parse_function: when the function name starts with `.` the current input (the root "
+                 "extractor: ExtractFromInput::Root with 0 parents) is pushed as the first argument, before any parsed "
+                 "argument, and exactly the dot is stripped from the name that is looked up; otherwise nothing is "
+                 "pushed and the name is looked up as read", floor=3,
+                 analysis="A5 partial evaluation with starts_with seeded + A4 provenance + aggregate constants of root()")
+    b = lib.bodies.get("selection::parse_function")
+    rootb = lib.bodies.get("extractor::root")
+    if b is None or rootb is None:
+        r.missing("selection::parse_function / extractor::root")
+        return
+    sw = [c for c in b.calls if (c.name or "").endswith("<impl str>::starts_with")]
+    ff = [c for c in b.calls if (c.name or "").endswith("functions_definitions::find_function")]
+    loops = b.loops()
+    if len(sw) != 1 or len(ff) != 1:
+        r.missing("one starts_with test and one find_function call (found %d / %d)" % (len(sw), len(ff)))
+        return
+    pat = sw[0].args[1]
+    if not (pat.get("k") == "const" and pat.get("ty") == "char" and pat.get("int") == 0x2E):
+        r.bad("parse_function/test", "the sugar is not triggered by a leading `.`", sw[0].where())
+    for dotted in (True, False):
+        ev = []
+
+        def model(c, av, envv, pe, dotted=dotted):
+            n = c.name or ""
+            if c.bb == sw[0].bb:
+                return (True, ("b", dotted))
+            if n.endswith("extractor::root"):
+                return (True, ("tok", "root"))
+            if n.endswith("Vec::<T, A>::push") or n.endswith("Vec::<T>::push"):
+                ev.append(("push", pe._deref_all(envv, av[1]) if len(av) > 1 else None, b.in_loop(c.bb)))
+                return (True, ("adt", 0, ()))
+            if c.bb == ff[0].bb:
+                ev.append(("find",))
+                return (True, ("adt", 1, (None,)))     # stop here: the lookup fails, nothing after it matters
+            if "Index" in (c.full or "") and "RangeFrom" in (c.full or ""):
+                rng = pe._deref_all(envv, av[1]) if len(av) > 1 else None
+                ev.append(("strip", rng))
+                return None
+            return None
+        res = PE(b, model, eq_ok=common.derived_eq_ok(lib), max_states=40000).run(start=sw[0].bb)
+        key = "parse_function[name %s a dot]" % ("starts with" if dotted else "does not start with")
+        pre = [e for e in ev if e[0] == "push" and not e[2]]
+        strips = [e for e in ev if e[0] == "strip"]
+        if dotted:
+            okk = len(pre) == 1 and pre[0][1] == ("tok", "root") and len(strips) == 1 and \
+                strips[0][1] is not None and strips[0][1][0] == "adt" and strips[0][1][2] == (("i", 1),) and \
+                ev.index(pre[0]) < ev.index(("find",))
+            if okk:
+                r.ok(key, "root() pushed first, name[1..] looked up", sw[0].where())
+            else:
+                r.bad(key, "the leading-dot form does not push the current input as first argument and strip exactly "
+                      "the dot: events %s" % ev, sw[0].where())
+        else:
+            if not pre and not strips and ("find",) in ev:
+                r.ok(key, "nothing pushed, name looked up as read", sw[0].where())
+            else:
+                r.bad(key, "without a leading dot an argument is pushed or the name is altered: events %s" % ev,
+                      sw[0].where())
+    # root() is the current input itself
+    aggs = [rv for bb, idx, place, rv, _ in rootb.assignments() if rv["k"] == "agg" and rv.get("adt") == "extractor::Extract"]
+    good = False
+    if len(aggs) == 1:
+        named = dict(zip(aggs[0]["fields"], aggs[0]["ops"]))
+        np_ = named.get("number_of_parents", {})
+        pr = Prov(rootb, ())
+        ext = named.get("extract_from_input")
+        isroot = False
+        if ext is not None:
+            if ext.get("k") == "const":
+                isroot = "Root" in (ext.get("s") or "")
+            for a in pr.origins(ext):
+                if a[0] == "agg":
+                    isroot = rootb.stmts(a[1])[a[2]]["rv"].get("variant_name") == "Root"
+        good = np_.get("int") == 0 and isroot
+    if good:
+        r.ok("root()", "Extract { ExtractFromInput::Root, number_of_parents: 0 }", rootb.where())
+    else:
+        r.bad("root()", "root() is not the current input (ExtractFromInput::Root with 0 parents)", rootb.where())
